@@ -640,6 +640,8 @@ def drain_placement(F, S):
 
 def check(F, run, tier):
     S = Summaries(F)
+    from ..rules_archive import noexcept_obligations
+    noexcept_obligations(F, S, run)
     run.declined = DECLINED
     run.explanation = (
         "Static analysis of the LZH decoder's structural clauses (its output is not examined). Decided: every store to the "
